@@ -97,7 +97,10 @@ SIM = {
         "designs": [{"module": "MC_TxnCount", "constants": {"MaxSteps": "6"}, "invariants": ["Inv_TotalsExact", "Inv_HourlyExact", "Inv_UnlimitedNeverBlocked"], "properties": ["Prop_VerdictExact"], "must_reach": ["Reach_Blocked", "Reach_RestartAfterBlock"]},
                     {"module": "MC_TxnCount", "constants": {"MaxSteps": "8"}, "invariants": ["Inv_TotalsExact", "Inv_HourlyExact", "Inv_UnlimitedNeverBlocked"], "properties": ["Prop_VerdictExact"], "tier": "thorough", "timeout": 1500}],
         "profiles": [{"p_txlimit": 0.8, "p_two_clients": 0.6, "gaps": [1000, 200, 600000, 3500000, 3600000, 86400000, 1799000, 121], "p_action": 0.85, "p_txn": 0.4, "p_cancel": 0.35, "p_replace": 0.3, "p_suspend": 0.15, "max_orders": 12, "n_updates": (8, 20), "p_force": 0.1},
-                     {"p_txlimit": 1.0, "gaps": [100, 500, 3600000, 1000], "p_action": 0.9, "n_strategies": (2, 2), "max_orders": 12}],
+                     {"p_txlimit": 1.0, "gaps": [100, 500, 3600000, 1000], "p_action": 0.9, "n_strategies": (2, 2), "max_orders": 12},
+                     # the second market file holds an earlier time than the first (the previous clock hour, the previous day)
+                     {"p_txlimit": 1.0, "n_markets": (2, 2), "market_starts": [3000000, 100000], "gaps": [100, 1000, 60000, 600000], "p_action": 0.9, "max_orders": 12, "n_updates": (6, 12)},
+                     {"p_txlimit": 1.0, "n_markets": (2, 3), "market_starts": [90000000, 4000000, 100000], "gaps": [100, 1000, 60000], "p_action": 0.9, "max_orders": 12, "n_updates": (5, 10)}],
         "extra": ["failed_packages"],
         "n_quick": 160, "n_thorough": 4000,
         "rule": "simulation runs whose publish times span hour and day boundaries, clients with transaction limits 0..5 or none (one or two clients), packages of any kind with failures; every call of the control and every handler judged against TxnCount.tla; totals against the instructions the specification says were submitted",
